@@ -47,6 +47,7 @@ type LoopSpec struct {
 }
 
 type Contract struct {
+	External bool // contract of a dependency's function (assumed)
 	Key      string
 	Pkg      *packages.Package
 	File     string
@@ -125,6 +126,15 @@ func parseContractFile(P *Program, pkg *packages.Package, f *ast.File, name stri
 					head = strings.TrimSpace(head[:i])
 				}
 				cur.Key = pkg.Types.Name() + "." + head
+				if i := strings.Index(head, "."); i > 0 && word == "func" {
+					// a function of a dependency, named through the package's import: an assumed contract
+					for _, ip := range pkg.Types.Imports() {
+						if ip.Name() == head[:i] && pkg.Types.Scope().Lookup(head[:i]) == nil {
+							cur.Key = head
+							cur.External = true
+						}
+					}
+				}
 				if word == "funcval" {
 					cur.Key = "funcval:" + pkg.Types.Name() + "." + head
 				} else if cur.IsIface {
